@@ -316,6 +316,9 @@ def main(argv=None):
         except Exception:
             ctx.corr_fail({}, "harness exception in finalize", traceback.format_exc()[-2000:])
 
+    if os.environ.get("VERIF_DUMP"):
+        json.dump({"oracle": ctx.oracle_failures, "corr": ctx.corr_failures}, open(os.environ["VERIF_DUMP"], "w"), indent=1, default=str)
+
     findings = load_findings(pid)
     new_fail, known = [], []
     for f in ctx.oracle_failures:
